@@ -65,6 +65,46 @@ def run(ctx):
         R.oracle(key, not problems, dict(input=key[:300], case=enc.case_repr(c), expected="success iff the stream fits, else DataOverflowError",
                                          observed="; ".join(problems)), tag="P3:" + ("fits" if fits else "overflow") + ":" + c.get("tag", "?"),
                  sample=dict(version=c["version"], level=c["level"], fit=c["fit"], segs=seg_counts(r["segs"])[:60], outcome=o[0] if o[0] == "ok" else o[1]))
+    # re-configured objects: the decision must follow the CURRENT settings and data, whatever the object compiled before
+    hist_req, hist_meta = [], []
+    for _ in range(400 if tier == "thorough" else 120):
+        v = rnd.choice([1, 2, 3, 5, 7, 9, 10, 12, 26, 27, 30])
+        l0 = rnd.randrange(4)
+        m = rnd.choice([1, 2, 4])
+        # a payload between the smallest and the largest capacity of version v over the four levels
+        capsv = sorted(caps[(m, v, l)] for l in range(4))
+        n = rnd.choice([capsv[0], capsv[0] + 1, capsv[1], capsv[1] + 1, capsv[2], capsv[2] + 1, capsv[3], capsv[3] + 1, rnd.randrange(capsv[0], capsv[3] + 2)])
+        data = gens.mode_payload(rnd, m, n, rnd.randrange(4))
+        q = qrcode.QRCode(version=v, error_correction=l0, mask_pattern=rnd.randrange(8))
+        q.add_data(data, optimize=0)
+        steps = []
+        for _ in range(rnd.randrange(1, 4)):
+            try:
+                q.make(fit=rnd.random() < 0.3)
+            except Exception:  # noqa
+                pass
+            ch = rnd.choice(["level", "level", "version", "both"])
+            if ch in ("level", "both"):
+                q.error_correction = rnd.randrange(4)
+            if ch in ("version", "both"):
+                q.version = rnd.choice([v, max(1, v - 1), min(40, v + 1)])
+            steps.append((q._version, q.error_correction))
+        cur_v, cur_l = q._version, q.error_correction
+        fit = rnd.random() < 0.3
+        try:
+            q.make(fit=fit); out = "ok"
+        except Exception as e:  # noqa
+            out = err_name(e)
+        vmax = 40 if fit else cur_v
+        hist_req.append(f"spec.fits {vmax} {cur_l} {m}:{n}")
+        hist_meta.append((v, l0, m, n, steps, fit, out, sha(data)))
+    for meta, rep in zip(hist_meta, ask(hist_req)):
+        v, l0, m, n, steps, fit, out, h = meta
+        fits = rep.split(" ")[1] == "1"
+        exp = "ok" if fits else "DataOverflowError"
+        R.oracle(f"history {meta[:7]} {h}", out == exp,
+                 dict(input=f"one object: version={v} level={l0}, {n} chars of mode {m}; make / re-configure to (version, level)={steps}; final make(fit={fit})",
+                      expected=exp + " (decided by the current settings: " + rep + ")", observed=out), tag="P3:history-" + exp)
     # other entry points
     from qrcode.image.pure import PyPNGImage
     for _ in range(40 if tier == "thorough" else 12):
